@@ -250,6 +250,14 @@ def eval_scenario(cfg, src, symbolic: bool) -> List[str]:
         labels = [src.lab(f'lab_{j}') for j in range(n)]
         span: Any = list(labels)
         txt = [str(2000 + j) for j in range(n)]       # labels named in the expressions (concrete integers)
+    elif kind == 'list_sym_neg':    # the labels named in the expressions are negative integers / zero
+        labels = [src.lab(f'lab_{j}') for j in range(n)]
+        span = list(labels)
+        txt = [str(-2 + j) for j in range(n)]
+    elif kind in ('range_neg', 'nd_neg'):   # integer labels straddling zero (`-2`, `-1`, `0`, ...)
+        labels = list(range(-2, -2 + n))
+        span = range(-2, -2 + n) if kind == 'range_neg' else np.arange(-2, -2 + n)
+        txt = [str(x) for x in labels]
     elif kind == 'range':
         labels = list(range(2000, 2000 + n))
         span = range(2000, 2000 + n)
@@ -401,8 +409,10 @@ def configs(tier: str):
     for fn in ('lag', 'lead', 'shift', 'diff', 'dlog'):
         for n in range(0, (6 if tier == 'quick' else 11)):
             out.append(cfg16(part='helper', fn=fn, n=n))
-    for span in ('list_sym', 'range', 'list_str', 'nd_int', 'nd_str'):
+    for span in ('list_sym', 'range', 'list_str', 'nd_int', 'nd_str', 'range_neg', 'nd_neg', 'list_sym_neg'):
         for n in (1, 2, 3, 4) if tier == 'quick' else (1, 2, 3, 4, 5, 6, 7):
+            if span == 'list_sym_neg' and n > 3 and tier == 'quick':
+                continue
             out.append(cfg16(part='eval', span=span, n=n))
     return out
 
